@@ -431,7 +431,13 @@ impl<'input> State<'input> {
         // would be inferred. So, for derive Error macro we default enabled
         // to true unconditionally (i.e., even if some fields have attributes
         // specified).
-        let default_enabled = if trait_name == "Error" {
+        //
+        // `IsVariant`, `Unwrap` and `TryUnwrap` generate accessors for every variant which isn't
+        // ignored: an attribute on one variant (`#[unwrap(ref)]`) only adds to that variant.
+        let default_enabled = if matches!(
+            trait_name,
+            "Error" | "IsVariant" | "Unwrap" | "TryUnwrap",
+        ) {
             true
         } else {
             first_match.map_or(true, |info| !info.enabled.unwrap())
@@ -445,9 +451,13 @@ impl<'input> State<'input> {
             // - not a single attribute means default true
             // - an attribute, but non of owned, ref or ref_mut means default true
             // - an attribute, and owned, ref or ref_mut means default false
-            owned: first_match.map_or(true, |info| {
-                info.owned.is_none() && info.ref_.is_none() || info.ref_mut.is_none()
-            }),
+            //
+            // `Unwrap` and `TryUnwrap` document `ref`/`ref_mut` as additions to the owned accessor.
+            owned: matches!(trait_name, "Unwrap" | "TryUnwrap")
+                || first_match.map_or(true, |info| {
+                    info.owned.is_none() && info.ref_.is_none()
+                        || info.ref_mut.is_none()
+                }),
             ref_: false,
             ref_mut: false,
             info: MetaInfo::default(),
